@@ -502,6 +502,73 @@ static int original_fails_check(hwloc_topology_t t) {
   return !(WIFEXITED(st) && WEXITSTATUS(st) == 0);
 }
 
+/* ---- object-level unit stream (v3, nolibxml export): for sampled objects, the raw attribute bytes of the <object ...> start tag
+ * of the export, the fields of the original object and of the reloaded object with the same gp_index.
+ *   OBJ <root> <parent type> <parent has sets> <tag hex> O <fields> R <fields|->          expected answer "OBJ ok"
+ *   fields: type osidx gp cpuset ccpuset nodeset cnodeset allowed_cpuset allowed_nodeset name subtype a0..a5 pci
+ *   pci: - or domain,bus,dev,func,class,vendor,device,subvendor,subdevice,revision,progif,<hex of the %f text of linkspeed> */
+static int cur_export_libxml;
+static void obj_fields(FILE *f, hwloc_topology_t t, hwloc_obj_t o) {
+  char a[4096];
+  long long v[6] = {0, 0, 0, 0, 0, 0};
+  int haspci = 0;
+  switch (o->type) {
+  case HWLOC_OBJ_NUMANODE: v[0] = (long long) o->attr->numanode.local_memory; break;      /* page types are child elements */
+  case HWLOC_OBJ_L1CACHE: case HWLOC_OBJ_L2CACHE: case HWLOC_OBJ_L3CACHE: case HWLOC_OBJ_L4CACHE: case HWLOC_OBJ_L5CACHE:
+  case HWLOC_OBJ_L1ICACHE: case HWLOC_OBJ_L2ICACHE: case HWLOC_OBJ_L3ICACHE: case HWLOC_OBJ_MEMCACHE:
+    v[0] = (long long) o->attr->cache.size; v[1] = o->attr->cache.depth; v[2] = o->attr->cache.linesize; v[3] = o->attr->cache.associativity; v[4] = o->attr->cache.type; break;
+  case HWLOC_OBJ_GROUP: v[0] = o->attr->group.depth; v[1] = o->attr->group.kind; v[2] = o->attr->group.subkind; v[3] = o->attr->group.dont_merge; break;
+  case HWLOC_OBJ_PCI_DEVICE: v[0] = o->attr->pcidev.domain; v[1] = o->attr->pcidev.bus; v[2] = o->attr->pcidev.dev; v[3] = o->attr->pcidev.func; v[4] = o->attr->pcidev.class_id;
+    v[5] = ((long long) o->attr->pcidev.vendor_id << 16) | o->attr->pcidev.device_id; haspci = 1; break;
+  case HWLOC_OBJ_BRIDGE: v[0] = o->attr->bridge.upstream_type; v[1] = o->attr->bridge.downstream_type; v[2] = o->attr->bridge.depth;
+    v[3] = o->attr->bridge.downstream.pci.domain; v[4] = o->attr->bridge.downstream.pci.secondary_bus; v[5] = o->attr->bridge.downstream.pci.subordinate_bus;
+    haspci = o->attr->bridge.upstream_type == HWLOC_OBJ_BRIDGE_PCI; break;
+  case HWLOC_OBJ_OS_DEVICE: v[0] = (long long) o->attr->osdev.types; break;
+  default: break;
+  }
+  fprintf(f, "%d %d %llu", (int) o->type, (int) o->os_index, (unsigned long long) o->gp_index);
+  hex_of_set(a, sizeof a, o->cpuset); fprintf(f, " %s", a); hex_of_set(a, sizeof a, o->complete_cpuset); fprintf(f, " %s", a);
+  hex_of_set(a, sizeof a, o->nodeset); fprintf(f, " %s", a); hex_of_set(a, sizeof a, o->complete_nodeset); fprintf(f, " %s", a);
+  if (!o->parent) { hex_of_set(a, sizeof a, hwloc_topology_get_allowed_cpuset(t)); fprintf(f, " %s", a); hex_of_set(a, sizeof a, hwloc_topology_get_allowed_nodeset(t)); fprintf(f, " %s", a); }
+  else fputs(" - -", f);
+  fputc(' ', f); fhexs(f, o->name); fputc(' ', f); fhexs(f, o->subtype);
+  for (int i = 0; i < 6; i++) fprintf(f, " %lld", v[i]);
+  if (!haspci) fputs(" -", f);
+  else {
+    char sp[64]; snprintf(sp, sizeof sp, "%f", o->attr->pcidev.linkspeed);
+    fprintf(f, " %u,%u,%u,%u,%u,%u,%u,%u,%u,%u,%u,", o->attr->pcidev.domain, o->attr->pcidev.bus, o->attr->pcidev.dev, o->attr->pcidev.func, o->attr->pcidev.class_id,
+            o->attr->pcidev.vendor_id, o->attr->pcidev.device_id, o->attr->pcidev.subvendor_id, o->attr->pcidev.subdevice_id, o->attr->pcidev.revision, o->attr->pcidev.prog_if);
+    fhex(f, sp, strlen(sp));
+  }
+}
+static void obj_stream(hwloc_topology_t t1, hwloc_topology_t t2, const char *xml, size_t len) {
+  hwloc_obj_t *o1; unsigned n1;
+  recollect(t1); n1 = nobjs; o1 = malloc((n1 + 1) * sizeof *o1); memcpy(o1, objs, n1 * sizeof *o1);
+  recollect(t2);
+  unsigned stride = n1 > 48 ? n1 / 48 : 1, nio = 0;
+  for (unsigned i = 0; i < n1; i++) {
+    hwloc_obj_t o = o1[i], r = NULL;
+    /* every stride-th object, plus the first 40 memory-side caches / I/O / Misc objects (rare types) */
+    if (i % stride && !(o->type >= HWLOC_OBJ_MEMCACHE && nio++ < 40)) continue;
+    char key[64]; int kl = snprintf(key, sizeof key, " id=\"obj%llu\"", (unsigned long long) o->gp_index);
+    const char *p = NULL;
+    for (size_t k = 0; k + kl <= len; k++) if (!memcmp(xml + k, key, kl)) { p = xml + k; break; }
+    if (!p) continue;
+    const char *st = p; while (st > xml && *st != '<') st--;
+    if (strncmp(st, "<object", 7)) continue;
+    const char *en = p; while (en < xml + len && *en != '>') en++;
+    if (en >= xml + len) continue;
+    if (en[-1] == '/') en--;
+    for (unsigned k = 0; k < nobjs; k++) if (objs[k]->gp_index == o->gp_index && objs[k]->type == o->type) { r = objs[k]; break; }
+    fprintf(fops, "OBJ %d %d %d ", o->parent ? 0 : 1, o->parent ? (int) o->parent->type : 0, o->parent ? (o->parent->cpuset ? 1 : 0) : 1);
+    fhex(fops, st + 7, (size_t) (en - (st + 7)));
+    fputs(" O ", fops); obj_fields(fops, t1, o);
+    fputs(" R ", fops); if (r) obj_fields(fops, t2, r); else fputc('-', fops);
+    fputc('\n', fops); fprintf(fc, "OBJ ok\n");
+  }
+  free(o1);
+}
+
 static void roundtrip(char mode, int fmt) {
   unsigned long xflags = fmt == 2 ? HWLOC_TOPOLOGY_EXPORT_XML_FLAG_V2 : 0;
   hwloc_topology_t t2 = NULL;
@@ -525,6 +592,7 @@ static void roundtrip(char mode, int fmt) {
   dump_both(t2, "r"); extras(t2, "r");
   ev_flush_to_ops(); evf = NULL;
   emit("EQ ok", "CMP v%d", fmt);
+  if (fmt == 3 && !cur_export_libxml && !getenv("VERIF_XMLRT_NO_OBJ")) obj_stream(topo, t2, x1, len1);
   flush2();
   /* hwloc_topology_check() is not called on the reloaded topology: it is equivalent to the original (just judged), and whether
    * the original passes it is C01/C02's business (VERIF_XMLRT_CHECK=1 runs it on both, original first) */
@@ -710,6 +778,7 @@ static void script_line(const char *fmt, ...) {
 }
 
 static void set_backends(int e, int i) {
+  cur_export_libxml = e;
   unsetenv("HWLOC_LIBXML");
   setenv("HWLOC_LIBXML_EXPORT", e ? "1" : "0", 1);
   setenv("HWLOC_LIBXML_IMPORT", i ? "1" : "0", 1);
